@@ -1,4 +1,194 @@
 import SimVerif.Lemmas.Tracker
+/-!
+# C13 — bounded galleries and histories: newest kept, lowest quality evicted
+
+Model: `SimVerif.Tracker.{galleryUpdate, featCount, pushBounded, applyPick}` — `VisualMetric::optimize`
+/ `optimize_observations`, `update_history` of both attribute kinds.
+-/
 namespace SimVerif.C13
-theorem C13_placeholder : True := trivial
+open SimVerif.Tracker List
+
+def qGE (a b : GE) : Bool := decide (b.quality ≤ a.quality)
+
+theorem qGE_trans (a b c : GE) : qGE a b = true → qGE b c = true → qGE a c = true := by
+  simp only [qGE, decide_eq_true_eq]; exact fun h1 h2 => Rat.le_trans h2 h1
+theorem qGE_total (a b : GE) : (qGE a b || qGE b a) = true := by
+  simp only [qGE, Bool.or_eq_true, decide_eq_true_eq]; exact (Rat.le_total).symm
+
+/-- the stored-feature part of the old gallery, stably sorted by decreasing quality -/
+def keptSorted (old : List GE) : List GE :=
+  ((old.filter (fun g => g.feat != 0)).map (fun g => { g with box := false })).mergeSort qGE
+
+theorem galleryUpdate_eq (maxObs : Nat) (old : List GE) (new : GE) :
+    galleryUpdate maxObs old new =
+      (match (if (keptSorted old).length ≥ maxObs then (keptSorted old).dropLast else keptSorted old) with
+       | [] => [new]
+       | a0 :: rest => new :: rest ++ [a0]) := rfl
+
+theorem keptSorted_length_le (old : List GE) : (keptSorted old).length ≤ old.length := by
+  unfold keptSorted
+  rw [(mergeSort_perm _ _).length_eq, length_map]
+  exact length_filter_le _ _
+
+/-- **The gallery is bounded**: at most `visual_max_observations` entries in every reachable state. -/
+theorem C13_bound (maxObs : Nat) (h1 : 1 ≤ maxObs) (old : List GE) (new : GE) (h : old.length ≤ maxObs) :
+    (galleryUpdate maxObs old new).length ≤ maxObs := by
+  rw [galleryUpdate_eq]
+  have hk := keptSorted_length_le old
+  have hcut : (if (keptSorted old).length ≥ maxObs then (keptSorted old).dropLast else keptSorted old).length ≤ maxObs - 1 := by
+    split
+    · rw [length_dropLast]; omega
+    · omega
+  generalize (if (keptSorted old).length ≥ maxObs then (keptSorted old).dropLast else keptSorted old) = cut at hcut
+  cases cut with
+  | nil => simp; omega
+  | cons a0 rest => simp at hcut ⊢; omega
+
+/-- a fresh track's gallery (one entry) is within the bound, so by `C13_bound` every gallery is -/
+theorem C13_bound_init (maxObs : Nat) (h1 : 1 ≤ maxObs) (new : GE) : ([new] : List GE).length ≤ maxObs := by simpa using h1
+
+/-- **What survives an update**: the newest observation is first and is the only entry that still
+carries its box; every other entry is a stored *feature* of the previous gallery, box dropped. -/
+theorem C13_survivors (maxObs : Nat) (old : List GE) (new : GE) :
+    (galleryUpdate maxObs old new).head? = some new ∧
+    ∀ g ∈ (galleryUpdate maxObs old new).tail, g.box = false ∧ g.feat ≠ 0 ∧
+      ∃ g0 ∈ old, g0.feat = g.feat ∧ g0.quality = g.quality := by
+  rw [galleryUpdate_eq]
+  have hmem : ∀ g ∈ keptSorted old, g.box = false ∧ g.feat ≠ 0 ∧ ∃ g0 ∈ old, g0.feat = g.feat ∧ g0.quality = g.quality := by
+    intro g hg
+    have := (mergeSort_perm _ _).subset hg
+    obtain ⟨g0, hg0, rfl⟩ := mem_map.mp this
+    have hf := (mem_filter.mp hg0)
+    exact ⟨rfl, by simpa using hf.2, g0, hf.1, rfl, rfl⟩
+  have hcutmem : ∀ g ∈ (if (keptSorted old).length ≥ maxObs then (keptSorted old).dropLast else keptSorted old), g ∈ keptSorted old := by
+    intro g hg
+    split at hg
+    · exact (dropLast_sublist _).subset hg
+    · exact hg
+  generalize (if (keptSorted old).length ≥ maxObs then (keptSorted old).dropLast else keptSorted old) = cut at hcutmem
+  cases cut with
+  | nil => simp
+  | cons a0 rest =>
+    refine ⟨rfl, ?_⟩
+    intro g hg
+    have hg : g ∈ rest ++ [a0] := hg
+    simp only [mem_append, mem_singleton] at hg
+    rcases hg with hg | rfl
+    · exact hmem g (hcutmem g (mem_cons_of_mem _ hg))
+    · exact hmem _ (hcutmem _ mem_cons_self)
+
+/-- **Lowest quality evicted first**: when the stored features already fill the gallery, the entry
+that is dropped has a quality no larger than every stored feature that is kept. -/
+theorem C13_evict (maxObs : Nat) (old : List GE) (hfull : (keptSorted old).length ≥ maxObs)
+    (hne : keptSorted old ≠ []) :
+    ∀ g ∈ (keptSorted old).dropLast, ((keptSorted old).getLast hne).quality ≤ g.quality := by
+  have hsorted : (keptSorted old).Pairwise (fun a b => b.quality ≤ a.quality) := by
+    have := pairwise_mergeSort (le := qGE) qGE_trans qGE_total
+      ((old.filter (fun g => g.feat != 0)).map (fun g => { g with box := false }))
+    simpa [qGE, keptSorted] using this
+  intro g hg
+  have hsplit := dropLast_concat_getLast hne
+  rw [← hsplit] at hsorted
+  exact (pairwise_append.mp hsorted).2.2 g hg _ (by simp)
+
+/-- **Collected count and collect thresholds** (one pick of a VisualSORT tracker): the reported
+count is the number of stored features; a continuing update stores the detection's feature iff it
+meets the collect thresholds; a new track keeps its first feature unconditionally. -/
+theorem C13_count_collect (cfg : Cfg) (hv : cfg.visual = true) (scene e : Nat) (st st' : St) (d : Det) (p : Pick) (r : Rec)
+    (h : applyPick cfg scene e st d p = some (st', r)) :
+    (∀ tid vis, p = .cont tid vis → ∃ t t', findLive st tid = some t ∧ t' ∈ st'.live ∧ t'.id = t.id ∧
+        t'.gallery = galleryUpdate cfg.maxObs t.gallery { quality := d.quality, feat := if d.collectOk then d.feat else 0, box := true } ∧
+        t'.vcount = featCount t'.gallery ∧ t'.featH = pushBounded t.featH d.feat cfg.histLen) ∧
+    (∀ id, p = .fresh id → ∃ t' ∈ st'.live, t'.id = id ∧ t'.gallery = [{ quality := d.quality, feat := d.feat, box := true }] ∧
+        t'.vcount = featCount t'.gallery ∧ t'.featH = [d.feat]) := by
+  unfold applyPick at h
+  cases p with
+  | cont tid vis =>
+    refine ⟨?_, (fun id hp => by cases hp)⟩
+    intro tid' vis' hp
+    injection hp with hp1 hp2
+    subst hp1; subst hp2
+    simp only at h
+    cases hf : findLive (if cfg.batchIds = true then { st with nextId := st.nextId + 1 } else st) tid with
+    | none => simp [hf] at h
+    | some t =>
+      have hf' : findLive st tid = some t := by split at hf <;> exact hf
+      simp only [hf, Option.some.injEq, Prod.mk.injEq] at h
+      obtain ⟨h1, _⟩ := h
+      subst h1
+      have hid := findLive_id st tid t hf'
+      have hmem := findLive_mem st tid t hf'
+      refine ⟨t, _, hf', mem_map.mpr ⟨t, ?_, rfl⟩, ?_, ?_, ?_, ?_⟩
+      · split <;> exact hmem
+      all_goals simp [hid, hv]
+  | fresh id =>
+    refine ⟨(fun tid vis hp => by cases hp), ?_⟩
+    intro id' hp
+    injection hp with hp
+    subst hp
+    simp only [Option.some.injEq, Prod.mk.injEq] at h
+    obtain ⟨h1, _⟩ := h
+    subst h1
+    refine ⟨_, mem_append_right _ (mem_singleton_self _), ?_, ?_, ?_, ?_⟩
+    all_goals simp [hv]
+
+/-- the last `n` entries of a list -/
+def lastN (n : Nat) (l : List Nat) : List Nat := l.drop (l.length - n)
+
+theorem push_lastN (n : Nat) (hn : 0 < n) (h : List Nat) (x : Nat) :
+    pushBounded (lastN n h) x n = lastN n (h ++ [x]) := by
+  unfold pushBounded lastN
+  simp only [length_append, length_singleton, length_drop]
+  by_cases hc : h.length < n
+  · have h0 : h.length - n = 0 := by omega
+    have h1 : h.length + 1 - n = 0 := by omega
+    simp only [h0, h1, drop_zero, Nat.sub_zero]
+    have h2 : ¬ (h.length + 1 > n) := by omega
+    simp [h2]
+  · have h3 : h.length - (h.length - n) = n := by omega
+    have h2 : h.length - (h.length - n) + 1 > n := by omega
+    simp only [hn, decide_true, h2, Bool.and_self, if_true]
+    rw [show h.length + 1 - n = (h.length - n) + 1 by omega]
+    rw [← drop_drop, drop_append_of_le_length (Nat.sub_le _ _)]
+
+/-- **Bounded histories**: after pushing `xs` one by one a history of bound `n > 0` holds exactly the
+last `min xs.length n` entries, in arrival order… -/
+theorem C13_history (n : Nat) (hn : 0 < n) (xs : List Nat) :
+    xs.foldl (fun h x => pushBounded h x n) [] = xs.drop (xs.length - n) := by
+  have key : ∀ (xs h : List Nat),
+      xs.foldl (fun h x => pushBounded h x n) (lastN n h) = lastN n (h ++ xs) := by
+    intro xs
+    induction xs with
+    | nil => intro h; simp
+    | cons x xs ih =>
+      intro h
+      simp only [foldl_cons]
+      rw [push_lastN n hn, ih]
+      simp
+  have := key xs []
+  simpa [lastN] using this
+
+theorem C13_history_length (n : Nat) (xs : List Nat) : (xs.drop (xs.length - n)).length = min xs.length n := by
+  simp only [length_drop]; omega
+
+/-- … and its last entry is the one pushed last (the entry echoed in the record). -/
+theorem C13_history_last (h : List Nat) (x n : Nat) : (pushBounded h x n).getLast? = some x := by
+  unfold pushBounded
+  simp only
+  split
+  · rename_i hc
+    cases h with
+    | nil => simp at hc; omega
+    | cons a t => simp
+  · simp
+
+/-! ### non-vacuity: a full gallery of three evicts its lowest quality -/
+example : (galleryUpdate 3 [⟨9, 7, false⟩, ⟨5, 11, true⟩, ⟨2, 5, false⟩] ⟨7, 12, true⟩).map (·.feat) = [12, 11, 7] := by
+  have hk : keptSorted [⟨9, 7, false⟩, ⟨5, 11, true⟩, ⟨2, 5, false⟩] = [⟨9, 7, false⟩, ⟨5, 11, false⟩, ⟨2, 5, false⟩] := by
+    unfold keptSorted
+    apply mergeSort_of_pairwise
+    decide +kernel
+  rw [galleryUpdate_eq, hk]
+  rfl
+
 end SimVerif.C13
